@@ -1650,6 +1650,11 @@ class UserSpaceImpl(*_user_space_impl_base):
     def doc(self, value):
         self._doc = value
 
+    def set_allow_none(self, value):
+        self.allow_none = value
+        # Dynamic spaces take over allow_none of their base when created
+        self.clear_subs_rootitems()
+
     # ----------------------------------------------------------------------
     # Cells creation
 
